@@ -12,7 +12,9 @@ def rules(ctx):
     S.c02_r4_who_frees(ctx)
     S.c05_r1_abort_path(ctx)
     S.c01_r5_cow(ctx)
+    S.c06_r1_freed_merged(ctx)
     S.c06_r2_handover(ctx)
+    S.c06_r7_multimap(ctx)
     S.c06_r3_durable_drains(ctx)
     S.c06_r4_rebuild(ctx)
     S.c06_r5_tracking(ctx)
